@@ -46,10 +46,13 @@ type poolWorld struct {
 	maxLive          atomic.Int64
 }
 
+var errC24Cause = errors.New("custom cause")
+
 type poolOp struct {
 	At      int    `json:"at_ms"`
 	Ctx     string `json:"ctx"` // bg | deadline | cancel | done
 	CtxAt   int    `json:"ctx_ms"`  // deadline / cancel delay after the call starts
+	Cause   bool   `json:"cause,omitempty"` // the context carries a custom cause (WithTimeoutCause / WithCancelCause)
 	Hold    int    `json:"hold_ms"` // how long a successful holder keeps the wire
 	Break   bool   `json:"break"`   // the wire fails while held
 	NoStore bool   `json:"-"`
@@ -162,10 +165,20 @@ func runPoolPlan(t *testing.T, plan poolPlan) (res bubble.Result, obs poolObs) {
 					var doneAt time.Time
 					switch op.Ctx {
 					case "deadline":
-						ctx, cancel = context.WithTimeout(ctx, time.Duration(op.CtxAt)*time.Millisecond)
+						if op.Cause {
+							ctx, cancel = context.WithTimeoutCause(ctx, time.Duration(op.CtxAt)*time.Millisecond, errC24Cause)
+						} else {
+							ctx, cancel = context.WithTimeout(ctx, time.Duration(op.CtxAt)*time.Millisecond)
+						}
 						doneAt = time.Now().Add(time.Duration(op.CtxAt) * time.Millisecond)
 					case "cancel":
-						ctx, cancel = context.WithCancel(ctx)
+						if op.Cause {
+							var cc context.CancelCauseFunc
+							ctx, cc = context.WithCancelCause(ctx)
+							cancel = func() { cc(errC24Cause) }
+						} else {
+							ctx, cancel = context.WithCancel(ctx)
+						}
 						doneAt = time.Now().Add(time.Duration(op.CtxAt) * time.Millisecond)
 						c := cancel
 						if plan.Hook && hookCancel.CompareAndSwap(nil, &c) {
@@ -278,7 +291,7 @@ func genPoolPlan(rt *rapid.T) poolPlan {
 		for k := range ops {
 			at += rapid.IntRange(0, 15).Draw(rt, "gap")
 			ops[k] = poolOp{At: at, Ctx: rapid.SampledFrom([]string{"bg", "bg", "deadline", "cancel", "done"}).Draw(rt, "ctx"),
-				CtxAt: rapid.IntRange(1, 30).Draw(rt, "ctxAt"), Hold: rapid.IntRange(0, 25).Draw(rt, "hold"), Break: rapid.IntRange(0, 4).Draw(rt, "break") == 0}
+				CtxAt: rapid.IntRange(1, 30).Draw(rt, "ctxAt"), Cause: rapid.IntRange(0, 2).Draw(rt, "cause") == 0, Hold: rapid.IntRange(0, 25).Draw(rt, "hold"), Break: rapid.IntRange(0, 4).Draw(rt, "break") == 0}
 		}
 		plan.Actors = append(plan.Actors, ops)
 	}
